@@ -1,22 +1,70 @@
 (* C14 — property theorems only.
 
-   FULL STATEMENTS (DESIGN.md §4 C14) and what is proved of them:
+   All statements are about the model of the REPAIRED code (coq/C14/Model.v) with explicit fuel for the
+   recursion of is_useful: they are stated for every fuel and every run that ends in [Ok] (the model's
+   [OutOfFuel] and the Rust-side internal-error outcomes [Err]/[Panic] are excluded in the statements; the
+   per-case judge reports a model run that ends in them, codes 13/14).  Hypotheses: column types are
+   inhabited ([wf_tyb]: enums have a variant), the matrix, the row and the arms are well typed ([row_okb],
+   [scrut_okb]: literals in range, variants/fields exist, a struct scrutinee lists a field at most once,
+   or-patterns are non-empty).
 
-   C14_useful_exact        forall ts P q fuel r, rows well typed -> useful fuel ts P q = Ok r ->
-                           (has_witnesses r = true <-> exists vs : ts, vmatches q vs /\ forall row in P, ~ vmatches row vs)
-                           NOT PROVED.  Proved parts: the two matrix transformations of algorithm U are exact
-                           (C14_specialize_exact_partial, C14_default_exact_partial, C14_default_sound_partial),
-                           the integer signature test and the missing-range computation are exact
-                           (C14_ranges_cover_exact, C14_exclusionary_exact, C14_complete_signature_exact) on what reaches them
-                           (C14_from_scrutinee_singletons, C14_specialize_keeps_singletons, C14_sigma_singletons).
-                           Missing: the induction over the recursion of is_useful that assembles them
-                           (typing of specialised rows, complete_loop / is_useful_or invariants, witness stacks).
-   C14_nonexhaustive_exact, C14_witness_uncovered, C14_arm_unreachable_exact, C14_runtime_first_match
-                           NOT PROVED for the model.  They are decided per generated match by the brute-force
-                           oracle, which IS proved exact (the C14_oracle_ theorems), and every case judged 0 is an instance
-                           of all four statements (C14_judged_case_sound).                                        *)
-From SwayV Require Import Base.Util C14.Model C14.Spec C14.Basics C14.Ranges C14.Useful C14.Complete C14.Judge C14.JudgeSound.
+   C14_useful_exact            PROVED (both directions)      C14_nonexhaustive_exact   PROVED
+   C14_witness_uncovered       PROVED                        C14_arm_unreachable_exact PROVED
+   C14_runtime_first_match     PROVED (condition built from the matcher.rs requirement tree, lazy evaluation)
+   plus the oracle / interval / signature / matrix lemmas below.
+   Not modelled, hence outside the theorems: distribution of or-patterns inside reported witnesses
+   (serialize_multi_patterns; the model keeps them nested, same value set), or-alternatives that bind
+   variables in the condition builder (other code path).                                              *)
+From SwayV Require Import Base.Util C14.Model C14.Spec C14.Basics C14.Ranges C14.Useful C14.Complete C14.Judge C14.JudgeSound
+  C14.Typing C14.Matrix C14.UsefulExact C14.Source C14.Corollaries C14.Runtime C14.Witness1 C14.Witness2.
 Local Open Scope N_scope.
+
+(* ==== the central theorems ==== *)
+(* algorithm U of the model is exact: a witness report is non-empty iff some well-typed value vector matches
+   q and no row of P *)
+Theorem C14_useful_exact : forall fuel ts P q r,
+  forallb wf_tyb ts = true -> (forall row, In row P -> row_okb row ts = true) -> row_okb q ts = true ->
+  useful fuel ts P q = Ok r ->
+  (has_witnesses r = true <->
+   exists vs, vals_tyb vs ts = true /\ vmatches q vs = true /\ forall row, In row P -> vmatches row vs = false).
+Proof. exact useful_exact. Qed.
+Print Assumptions C14_useful_exact.
+
+(* check_match_expression_usefulness: the match is reported non-exhaustive iff some value of the scrutinee
+   type is matched by no arm *)
+Theorem C14_nonexhaustive_exact : forall fuel t arms rep,
+  wf_tyb t = true -> (forall s, In s arms -> scrut_okb s t = true) -> analyse fuel t arms = Ok rep ->
+  (rep_nonexhaustive rep = true <-> uncovered t arms).
+Proof. exact nonexhaustive_exact. Qed.
+Print Assumptions C14_nonexhaustive_exact.
+
+(* every pattern reported as missing denotes at least one value of the type and only values that no arm matches *)
+Theorem C14_witness_uncovered : forall fuel t arms rep,
+  wf_tyb t = true -> (forall s, In s arms -> scrut_okb s t = true) -> analyse fuel t arms = Ok rep ->
+  rep_nonexhaustive rep = true ->
+  rep_witness rep <> [] /\ forall w, In w (rep_witness rep) -> witness_ok t arms w.
+Proof. exact witness_uncovered. Qed.
+Print Assumptions C14_witness_uncovered.
+
+(* an arm gets the unreachable-arm warning iff no value matches it that no earlier arm matches *)
+Theorem C14_arm_unreachable_exact : forall fuel t arms rep,
+  wf_tyb t = true -> (forall s, In s arms -> scrut_okb s t = true) -> analyse fuel t arms = Ok rep ->
+  forall i, (i < length arms)%nat -> (nth i (rep_warned rep) false = true <-> ~ reachable t arms i).
+Proof. exact arm_unreachable_exact. Qed.
+Print Assumptions C14_arm_unreachable_exact.
+
+(* the desugared if-chain never reads a place that does not exist and executes the first matching arm *)
+Theorem C14_runtime_first_match : forall t arms v,
+  (forall s, In s arms -> scrut_okb s t = true) -> has_tyb v t = true ->
+  run_match arms v = Some (first_match arms v).
+Proof. exact runtime_first_match. Qed.
+Print Assumptions C14_runtime_first_match.
+
+(* Pattern::from_scrutinee keeps typing and meaning (struct fields in declaration order, `..`, shorthand) *)
+Theorem C14_from_scrutinee_exact : forall s t v, scrut_okb s t = true -> has_tyb v t = true ->
+  pat_okb (from_scrutinee s) t = true /\ matches (from_scrutinee s) v = smatches s v.
+Proof. intros s t v H Hv. split; [now apply from_scrutinee_typed|now apply (from_scrutinee_matches s t v)]. Qed.
+Print Assumptions C14_from_scrutinee_exact.
 
 (* ---- the brute-force oracle is exact (S only) ---- *)
 Theorem C14_enum_complete : forall v t, has_ty v t -> In v (enum_values t).
@@ -94,22 +142,31 @@ Proof. exact complete_signature_exact. Qed.
 Print Assumptions C14_complete_signature_exact.
 
 (* ---- the matrix transformations of algorithm U ---- *)
-Theorem C14_specialize_exact_partial : forall c v rest vs, is_root c -> matches c v = true ->
+Theorem C14_specialize_exact : forall c v rest vs, is_root c -> matches c v = true ->
   forall p, singb p = true ->
   vmatches (p :: rest) (v :: vs) = existsb (fun row => vmatches row (args v ++ vs)) (spec_pat c p rest).
 Proof. exact spec_exact. Qed.
-Print Assumptions C14_specialize_exact_partial.
+Print Assumptions C14_specialize_exact.
 
-Theorem C14_default_exact_partial : forall v rest vs p,
+Theorem C14_default_exact : forall v rest vs p,
   (forall c, In c (roots p) -> matches c v = false) ->
   vmatches (p :: rest) (v :: vs) = existsb (fun row => vmatches row vs) (default_pat p rest).
 Proof. exact default_exact. Qed.
-Print Assumptions C14_default_exact_partial.
+Print Assumptions C14_default_exact.
 
-Theorem C14_default_sound_partial : forall v rest vs p,
+Theorem C14_default_sound : forall v rest vs p,
   existsb (fun row => vmatches row vs) (default_pat p rest) = true -> vmatches (p :: rest) (v :: vs) = true.
 Proof. exact default_sound. Qed.
-Print Assumptions C14_default_sound_partial.
+Print Assumptions C14_default_sound.
+
+(* the hypotheses of the central theorems hold for the regression shapes below, and the model ends in Ok *)
+Example C14_example_hypotheses :
+  wf_tyb (TTuple [TBool; TInt 255]) = true
+  /\ forallb (fun s => scrut_okb s (TTuple [TBool; TInt 255])) [STuple [SVar; SInt 1]; STuple [SBool true; SVar]; STuple [SBool false; SInt 0]] = true
+  /\ forallb (fun s => scrut_okb s (TTuple [TBool; TBool]))
+       [SStruct 2 [(0%nat, Some (SBool true)); (1%nat, Some SCatchAll)]; SStruct 2 [(0%nat, Some (SBool false))]; SStruct 2 [(1%nat, Some (SBool true))]] = true
+  /\ run_match [SOr [STuple [SCatchAll; SBool true]; SCatchAll]; STuple [SBool true; SBool false]] (VTuple [VBool false; VBool false]) = Some (Some 0%nat).
+Proof. vm_compute. repeat split. Qed.
 
 (* ---- non-vacuity / regression shapes (the defects repaired in /repo, see design_notes/C14.md) ---- *)
 (* (true,_),(false,_),(_,true) over (bool,bool): exhaustive, third arm unreachable *)
